@@ -297,6 +297,12 @@ impl Prop for C14 {
                 }
             }
             check_invariants(&m, &inst, step, x);
+            for part_name in exact::untouched_diff(&before, &inst, true, true) {
+                x.violate("C14:untouched-part-changed", format!("step {step}: the operation changed the instance's {part_name}"));
+            }
+            if before.objective != inst.objective || before.decision_variable_dependency != inst.decision_variable_dependency {
+                x.violate("C14:untouched-part-changed", format!("step {step}: the operation changed the objective or the dependencies"));
+            }
             if inst.removed_constraints.iter().filter(|r| r.constraint.is_none()).count() != unset_entries {
                 x.violate("C14:conservation:lost", format!("step {step}: the number of removed entries without constraint changed"));
             }
